@@ -297,20 +297,18 @@ def describe(trace, rej):
 
 
 def classify(t, r):
-    """Fingerprint of a rejection the known-findings model does not explain: the operation kind at which
-    the real code and the interpreter part, and the kinds of operations that led there."""
+    """Fingerprint of a rejection the known-findings model does not explain: the kind of operation at which the
+    real code and the interpreter part (with the escaping exception, if any) and the program features that led
+    there (a callback returned a Deferred? a pause was in effect at some point?)."""
     ops = t["ops"]
     k = r.reached
     op = ops[k] if k < len(ops) else ("end",)
     ev = t["ev"][k] if k < len(t["ev"]) else {"inv": [], "exc": ""}
-    kinds = []
-    for o in ops[:k]:
-        if o[0] == "add":
-            b = o[3] if o[3][0] != "thru" else o[4]
-            kinds.append("add-" + b[0])
-        else:
-            kinds.append(o[0])
-    return "%s%s after {%s}" % (op[0], ("/exc=" + ev["exc"]) if ev["exc"] else "", ",".join(sorted(set(kinds))))
+    retdef = any(o[0] == "add" and "retdef" in (o[3][0], o[4][0]) for o in ops[:k + 1])
+    paused = any(o[0] == "pause" for o in ops[:k])
+    return "diverges@%s%s/%s/%s" % (op[0], ("/exc=" + ev["exc"]) if ev["exc"] else "",
+                                    "returned-deferred" if retdef else "no-returned-deferred",
+                                    "pause-used" if paused else "no-pause")
 
 
 def valid(nd, ops):
@@ -370,7 +368,7 @@ def report(ctx, traces, rej):
     for n, (fp, xs) in enumerate(sorted(classes.items())):
         x = min(xs, key=lambda x: len(traces[x.idx]["ops"]))
         t = traces[x.idx]
-        if n < 3 and fp not in {k["fingerprint"] for k in ctx.known}:
+        if n < 2 and fp not in {k["fingerprint"] for k in ctx.known}:
             sm = shrink(ctx, t, "DeferredAbsTrace")
             if sm:
                 t, x = sm
@@ -438,6 +436,48 @@ def impl_layer(ctx):
         ctx.log("TLC counterexample of the coded-algorithm model does NOT reproduce on the real code (impl_drift): %s" % [list(o) for o in ops])
 
 
+def mini_alphabet(nd):
+    """Smallest alphabet that still has waiting, pausing and late-added callbacks (depth-5 family)."""
+    al = []
+    for d in range(1, nd + 1):
+        al.append(("fire", d, "ok", 1))
+        al.append(("pause", d))
+        al.append(("unpause", d))
+        al.append(("add", d, "cb", ("ret", 2), THRU))
+        for t in range(1, nd + 1):
+            if t != d:
+                al.append(("add", d, "both", ("retdef", t), ("retdef", t)))
+    return al
+
+
+ALPHABETS = {"small": small_alphabet, "core": core_alphabet, "mini": mini_alphabet}
+
+
+def sim_programs(ctx, num):
+    """spec -> code: behaviours generated by TLC from DeferredAbs (operations + predicted observables) are stepped
+    through real Deferreds; the recorded executions are validated by TLC with the others."""
+    behs = ctx.simulate("DeferredAbsSim", "DeferredAbsSim.cfg", num=num, depth=13)
+    drift = 0
+    out = []
+    for b in behs:
+        ops = []
+        for h in b["hist"]:
+            if h["e"] == "add":
+                ops.append(("add", h["d"], h["m"], tuple(h["ok"]), tuple(h["err"])))
+            elif h["e"] == "fire":
+                ops.append(("fire", h["d"], h["k"], h["v"]))
+            else:
+                ops.append((h["e"], h["d"]))
+        nd = b["cfg"]["nd"]
+        t = run_program({"nd": nd}, ops, epilogue(ops, nd))
+        if [(e["inv"], e["exc"]) for e in t["ev"][:len(ops)]] != [(h["inv"], h["exc"]) for h in b["hist"]]:
+            drift += 1
+        out.append(t)
+    ctx.extra["spec_behaviours_replayed"] = len(behs)
+    ctx.extra["spec_behaviours_not_reproduced"] = drift   # each of these is also rejected by TLC in validate()
+    return out
+
+
 def run(ctx):
     from harness.core import MachineryError
     for c in ctx.pick(["DeferredAbsMC.cfg"], ["DeferredAbsMC.thorough.cfg", "DeferredAbsMC.thorough3.cfg"]):
@@ -454,40 +494,22 @@ def run(ctx):
 
     traces = []
     # bounded-exhaustive small programs: (Deferreds, operations, alphabet)
-    fams = ctx.pick([(2, 3, "core")], [(1, 5, "small"), (2, 4, "small"), (2, 5, "core"), (3, 4, "core")])
+    fams = ctx.pick([(2, 3, "core")], [(1, 5, "small"), (2, 4, "core"), (2, 5, "mini"), (3, 3, "core")])
     for nd, depth, al in fams:
-        alphabet = core_alphabet(nd) if al == "core" else small_alphabet(nd)
-        for p in exhaustive(nd, depth, alphabet):
+        for p in exhaustive(nd, depth, ALPHABETS[al](nd)):
             traces.append(run_program({"nd": nd}, p, epilogue(p, nd)))
     ctx.exhaustive = True
     ctx.extra["exhaustive_families"] = ["%d Deferreds x %d ops (%s alphabet, %d symbols) + draining epilogue" %
-                                        (nd, k, al, len(core_alphabet(nd) if al == "core" else small_alphabet(nd))) for nd, k, al in fams]
+                                        (nd, k, al, len(ALPHABETS[al](nd))) for nd, k, al in fams]
     nex = len(traces)
     # random long programs
-    for i in range(ctx.pick(1200, 40000)):
+    for i in range(ctx.pick(1200, 30000)):
         nd = ctx.rng.randint(2, 6)
         p = random_program(ctx.rng, nd, ctx.rng.randint(6, 20))
         traces.append(run_program({"nd": nd}, p, epilogue(p, nd)))
     # spec -> code: programs drawn by TLC from the interpreter, with its predictions, stepped through real Deferreds
     if not ctx.quick:
-        behs = ctx.simulate("DeferredAbsSim", "DeferredAbsSim.cfg", num=12, depth=13)
-        drift = 0
-        for b in behs:
-            ops = []
-            for h in b["hist"]:
-                if h["e"] == "add":
-                    ops.append(("add", h["d"], h["m"], tuple(h["ok"]), tuple(h["err"])))
-                elif h["e"] == "fire":
-                    ops.append(("fire", h["d"], h["k"], h["v"]))
-                else:
-                    ops.append((h["e"], h["d"]))
-            nd = b["cfg"]["nd"]
-            t = run_program({"nd": nd}, ops, epilogue(ops, nd))
-            if [(e["inv"], e["exc"]) for e in t["ev"][:len(ops)]] != [(h["inv"], h["exc"]) for h in b["hist"]]:
-                drift += 1
-            traces.append(t)
-        ctx.extra["spec_behaviours_replayed"] = len(behs)
-        ctx.extra["spec_behaviours_not_reproduced"] = drift   # each of these is also rejected by TLC below
+        traces.extend(sim_programs(ctx, 12))
     ctx.note_traces(traces)
     ctx.log("recorded %d real executions (%d exhaustive)" % (len(traces), nex))
     import os
